@@ -304,6 +304,12 @@ async def _wire(loop, backend, cmds, home, tmp, info):
                         who = "after_relogin" if info.get("relogins") else "first_login"
                         raise Violation(f"C02/wire/backend_asked_outside_base/{verb}/{name}/{where}/target={tgt}/{who}",
                                         dict(asked=one, op=name, base=str(bases[cur[0]]), cmd=line, cwd=model_cwd, steps=info["steps"][-5:]))
+            # removing or renaming the base directory itself changes the directory that contains it
+            base_str = str(pathlib.PurePosixPath(*base_parts))
+            for name, p in ctl.log[n0:]:
+                if p is not None and name in ("rmdir", "unlink", "rename") and p.split(" -> ")[0] == base_str:
+                    raise Violation(f"C02/wire/backend_asked_to_remove_the_base_directory_itself/{verb}/{name}",
+                                    dict(asked=p, op=name, cmd=line, cwd=model_cwd, steps=info["steps"][-5:]))
             # ... and about the location the command addresses (or an ancestor / descendant of it: parent checks, listed
             # children), resolved when the command arrives; for RNTO also the location addressed by the pending RNFR
             addr = pathlib.PurePosixPath(*base_parts, *oracle(model_cwd, arg if verb != "CDUP" else ".."))
